@@ -4,10 +4,11 @@ from . import input_gen as G
 
 class Prop(G.InputPropBase):
     ID = "C05"
-    LEAN_MODULES = ["Tpp.Props.C05"]
+    LEAN_MODULES = ["Tpp.Props.C05", "Tpp.Lemmas.TablesTie"]
     REQUIRED = ["Tpp.Props.C05." + n for n in (
         "C05_items", "C05_items_after_enter", "C05_item", "C05_history_independent", "C05_modifier_rule",
-        "C05_key_tables", "C05_mouse_table")]
+        "C05_key_tables", "C05_mouse_table")] + \
+               ["Tpp." + n for n in ("modifierTable_is_source", "cursorTable_is_source", "ss3Table_is_source", "keypadTable_is_source", "mouseTable_is_source")]
     RULE = ("exhaustive: every (canonical prefix reaching each of the 8 control states with varied scratch, next byte "
             "0..255, distinguishing suffix) transition of detail::parser through a real terminal; the key space "
             "(initiator [ / O / x, final byte, first parameter incl. every table entry, neighbours and the atoi boundary "
